@@ -192,3 +192,12 @@ package ptrace
 //@   ensures @C02 scvalid(ctx.regs.Orig_rax) && nm() == "rename" ==> two(2, -100, rdi(), -100, rsi())
 //@   ensures @C02 scvalid(ctx.regs.Orig_rax) && (nm() == "access" || nm() == "stat" || nm() == "stat64" || nm() == "lstat" || nm() == "lstat64") ==> one(3, -100, rdi())
 //@   ensures @C02 scvalid(ctx.regs.Orig_rax) && (nm() == "faccessat" || nm() == "faccessat2" || nm() == "statx" || nm() == "fstatat" || nm() == "fstatat64" || nm() == "newfstatat") ==> one(3, dfd(rdi()), rsi())
+
+// C03/C04: the ptrace runner launches with ptrace enabled and exactly the caller's filter (so the child
+// attaches itself and stops before the filter is loaded), and the tracer consults exactly the caller's
+// policy through tracerHandler.
+//@ func runner/ptrace.(*Runner).Run props C03 C04
+//@   arith int
+//@   requires r != nil && len(r.Seccomp) <= 65535
+//@   callsite Trace: assert @C04 t.Runner == ch && ref_as(ch, forkexec.Runner) != nil && ref_as(ch, forkexec.Runner).Ptrace && !ref_as(ch, forkexec.Runner).StopBeforeSeccomp && (len(r.Seccomp) == 0 <==> ref_as(ch, forkexec.Runner).Seccomp == nil)
+//@   callsite Trace: assert @C03 t.Handler == th && ref_as(th, tracerHandler) != nil && ref_as(th, tracerHandler).Handler == r.Handler && ref_as(th, tracerHandler).Unsafe == r.Unsafe
